@@ -38,8 +38,10 @@ def own_excluded(cd):
 def shares_mutable(a, b) -> bool:
     """some list/dict inside `a` is the very object found inside `b` (a default handed out without a full copy)"""
     def walk(x, acc):
-        if isinstance(x, (list, dict)):
+        if isinstance(x, (list, dict, set)):
             acc.add(id(x))
+        if isinstance(x, (list, dict, tuple, set, frozenset)):
+            # an immutable container (tuple, frozenset) is walked through: what it HOLDS may be mutable
             for y in (x.values() if isinstance(x, dict) else x):
                 walk(y, acc)
         return acc
@@ -53,9 +55,20 @@ OPT_DEFAULTS = {
 }
 
 
+def thaw(v):
+    """a default as data -> the Python value: `{"__tuple__": [...]}` stands for a tuple (JSON has none)"""
+    if isinstance(v, dict):
+        if set(v) == {"__tuple__"}:
+            return tuple(thaw(x) for x in v["__tuple__"])
+        return {k: thaw(x) for k, x in v.items()}
+    if isinstance(v, list):
+        return [thaw(x) for x in v]
+    return v
+
+
 def vtext(v) -> str:
     try:
-        return json.dumps(v, sort_keys=True)
+        return json.dumps(thaw(v), sort_keys=True)
     except Exception:
         return "<" + type(v).__name__ + ">"
 
@@ -89,10 +102,10 @@ def _field(fd):
     d = fd.get("default")
     if d is not None:
         if d.get("factory"):
-            val = d["v"]
+            val = thaw(d["v"])
             kw["default_factory"] = lambda val=val: copy.deepcopy(val)
         else:
-            kw["default"] = copy.deepcopy(d["v"])
+            kw["default"] = thaw(copy.deepcopy(d["v"]))
     if fd.get("defer"):
         kw["defer_default"] = True
     if fd.get("no_input", False) is not False:
@@ -121,7 +134,7 @@ def _options(od, addition_type=None, force_dfs=None):
         v = od.get(k, dv)
         if k == "force_default":
             if v is not None:
-                kw[k] = copy.deepcopy(v["v"])
+                kw[k] = thaw(copy.deepcopy(v["v"]))
             continue
         if v != dv or (k == "addition" and k in od):
             kw[k] = v
@@ -353,6 +366,9 @@ def _run(classes, target, built, runtime, data, force_dfs=None, all_errors=False
             ga[a] = vtext(val)
             if a in defaults and shares_mutable(val, defaults[a]):
                 fresh = False
+            forced = getattr(opts if opts is not None else getattr(cls, "__options__", None), "force_default", None)
+            if isinstance(forced, (list, dict, tuple)) and shares_mutable(val, forced):
+                fresh = False
         except AttributeError:
             ga[a] = None
         except Exception as e:
@@ -366,24 +382,49 @@ def _run(classes, target, built, runtime, data, force_dfs=None, all_errors=False
     return {"ok": {"mapping": mapping, "attrs": attrs, "getattr": ga, "fresh": fresh, "contains": contains}}, cls
 
 
-def _run_func(cd, data, force_dfs, all_errors=False):
-    """a keyword-only function with the same parameters (C06: functions reach the same two loops)"""
+def func_source(cd):
+    """`def f(p0, p1, /, q0, *, k0, k1, **kw)`: the first `posonly` parameters positional-only, the next `poskw`
+    positional-or-keyword, the rest keyword-only; every parameter's default is its Field"""
+    atts = [fd["attname"] for fd in cd["fields"]]
+    po, pk = cd.get("posonly", 0), cd.get("poskw", 0)
+    decl = [f"{a}: T{i} = P{i}" for i, a in enumerate(atts)]
+    parts = decl[:po] + (["/"] if po else []) + decl[po:po + pk]
+    if decl[po + pk:]:
+        parts += ["*"] + decl[po + pk:]
+    if cd.get("kwargs"):
+        parts.append("**kw")
+    body = ", ".join(f"{a}={a}" for a in atts)
+    return f"def f({', '.join(parts)}):\n    return dict({body}), {'kw' if cd.get('kwargs') else '{}'}\n"
+
+
+def dup_positional(cd, nargs, data) -> bool:
+    """a keyword that is an accepted key of a positional-or-keyword parameter already bound by position: Python's
+    'got multiple values for argument' (TypeError), whatever the lookup strategy"""
+    po = cd.get("posonly", 0)
+    ci = bool((cd.get("opts") or {}).get("case_insensitive"))
+    for i, fd in enumerate(desugar([cd])[0]["fields"]):     # alias generators written out
+        if po <= i < min(nargs, po + cd.get("poskw", 0)):
+            f = derive_field(fd, ci)
+            for k, _ in data:
+                if (k.lower() if f["ci"] else k) in f["acc"]:
+                    return True
+    return False
+
+
+def _run_func(cd, data, force_dfs, all_errors=False, args=()):
+    """a function with the same parameters (C06: functions reach the same two loops): keyword-only, or with leading
+    positional-only / positional-or-keyword parameters called with positional arguments"""
     import warnings
     import utype
     from utype.utils import exceptions as exc
     warnings.simplefilter("ignore")
     T = _types()
-    ns, params, atts = {}, [], []
+    ns = {}
     try:
         for i, fd in enumerate(cd["fields"]):
             f, _ = _field(fd)
             ns[f"P{i}"], ns[f"T{i}"] = f, T[fd.get("type", "any")]
-            params.append(f"{fd['attname']}: T{i} = P{i}")
-            atts.append(fd["attname"])
-        kw = ", **kw" if cd.get("kwargs") else ""
-        body = ", ".join(f"{a}={a}" for a in atts)
-        src = f"def f(*, {', '.join(params)}{kw}):\n    return dict({body}{', **kw' if kw else ''})\n"
-        exec(src, ns)
+        exec(func_source(cd), ns)
         od = cd.get("opts", {})
         if all_errors:
             od = dict(od, collect_errors=True, max_errors=None)
@@ -393,14 +434,20 @@ def _run_func(cd, data, force_dfs, all_errors=False):
     except Exception as e:
         return {"config_error": "other:" + type(e).__name__}
     try:
-        r = fn(**dict((k, copy.deepcopy(v)) for k, v in data))
+        r, kw = fn(*copy.deepcopy(list(args)), **dict((k, copy.deepcopy(v)) for k, v in data))
     except exc.CollectedParseError as e:
         return {"collected": [_err(x) for x in e.errors]}
     except exc.ParseError as e:
         return {"raised": _err(e)}
+    except TypeError as e:
+        if dup_positional(cd, len(args), data) and "multiple values" in str(e):
+            # what Python answers to a parameter given by position and again by keyword
+            return {"raised": ["TypeError", None]}
+        return {"escape": f"{type(e).__name__}: {e}"[:160]}
     except Exception as e:
         return {"escape": f"{type(e).__name__}: {e}"[:160]}
     m = {k: vtext(v) for k, v in r.items()}
+    m.update({"**" + k: vtext(v) for k, v in kw.items()})
     return {"ok": {"mapping": m, "attrs": m, "getattr": {}}}
 
 
@@ -415,14 +462,15 @@ def impl(case):
     runtime, data = case.get("runtime"), case["data"]
     if case.get("kind") == "func":
         cd = case["cls"]
-        out = _run_func(cd, data, None)
+        args = case.get("args") or []
+        out = _run_func(cd, data, None, args=args)
         res = {"out": out, "func": True}
         if "config_error" not in out:
-            res["df"] = _run_func(cd, data, True)
-            res["ff"] = _run_func(cd, data, False)
+            res["df"] = _run_func(cd, data, True, args=args)
+            res["ff"] = _run_func(cd, data, False, args=args)
             if partial_report(res["df"], res["ff"]):
-                res["df_all"] = _run_func(cd, data, True, all_errors=True)
-                res["ff_all"] = _run_func(cd, data, False, all_errors=True)
+                res["df_all"] = _run_func(cd, data, True, all_errors=True, args=args)
+                res["ff_all"] = _run_func(cd, data, False, all_errors=True, args=args)
         return res
     classes, target = classes_of(case, raw=True)
     built = _build_all(classes)
@@ -880,11 +928,17 @@ def field_ok(fd) -> bool:
 def gen_field(rng: random.Random, i: int, n: int, rich: float = 1.0):
     L = LETTERS[i]
     att = rng.choice([L, L, L, L + "b", L.upper() + "f"])
+    if rng.random() < 0.07:
+        # names whose lower() and casefold() differ (ß -> ss, final sigma -> σ), and the dotless i: lower-casing is what
+        # the documentation promises for case-insensitive fields, not case folding
+        att = rng.choice([L + "ß", L + "ς", "ı" + L, L.upper() + "ß"])
     for _ in range(50):
         fd = {"attname": att, "type": rng.choice(["int", "int", "str", "any"])}
         p = rng.random
         fd["alias"] = rng.choice([None, None, None, L + "_out", L.upper() + "x", "@" + L]) if p() < rich else None
         pool = [L + "1", L.upper() + "2", "@" + L + "f", L + L.upper()]
+        if p() < 0.05:
+            pool.append(L + "ßx")
         k = rng.choice([0, 0, 1, 1, 2])
         fd["alias_from"] = rng.sample(pool, k)
         if p() < 0.04 and i > 0:
@@ -893,7 +947,9 @@ def gen_field(rng: random.Random, i: int, n: int, rich: float = 1.0):
         fd["required"] = rng.choice([None, None, None, True, False, False, "r", "w", "rw", "a"])
         dk = rng.choice(["none", "none", "value", "value", "factory"])
         if dk != "none":
-            v = rng.choice([5, "5", 0, "d", [1], 6, [[1]], {"k": [1]}])
+            v = rng.choice([5, "5", 0, "d", [1], 6, [[1]], {"k": [1]},
+                            # immutable outside, mutable inside: `rows: tuple = ([], [])`, `({"tags": []}, "v1")`
+                            {"__tuple__": [[], [1]]}, {"__tuple__": [{"tags": []}, "v1"]}, [{"__tuple__": [[1]]}]])
             fd["default"] = {"v": v, "factory": dk == "factory"}
         else:
             fd["default"] = None
@@ -931,7 +987,7 @@ def gen_opts(rng: random.Random, runtime: bool):
     if p() < 0.12:
         o["defer_default"] = True
     if p() < 0.12 and not o.get("no_default"):
-        o["force_default"] = {"v": rng.choice([9, "9", None, 0])}
+        o["force_default"] = {"v": rng.choice([9, "9", None, 0, 9, "9", [1], {"__tuple__": [[1], "x"]}])}
     if p() < 0.3:
         o["ignore_alias_conflicts"] = True
     if p() < 0.35:
@@ -1157,7 +1213,8 @@ def gen_hier_case(rng: random.Random):
 
 
 def gen_func_case(rng: random.Random):
-    """the same declaration as a keyword-only function (legal for FunctionParser.check_function)"""
+    """the same declaration as a function: keyword-only parameters, or (half of them) with leading positional-only /
+    positional-or-keyword parameters, `**kw`, positional arguments, and keywords spelled like the positional ones"""
     c = gen_case(rng)
     for fd in c["cls"]["fields"]:
         fd["defer"] = False
@@ -1175,6 +1232,41 @@ def gen_func_case(rng: random.Random):
     c["runtime"] = None
     c["kind"] = "func"
     c["data"] = gen_data(rng, c["cls"], o)
+    if rng.random() < 0.5:
+        fields = c["cls"]["fields"]
+        n = len(fields)
+        # positional parameters: plain ones first (required before defaulted, as FunctionParser demands)
+        npos = rng.randint(1, n)
+        for fd in fields[:npos]:
+            if rng.random() < 0.7:
+                fd.update(alias=None, no_input=False, mode=None, required=None, deps=[])
+                if rng.random() < 0.6:
+                    fd["default"] = None
+        fields[:npos] = sorted(fields[:npos], key=lambda fd: fd["default"] is not None)
+        po = rng.randint(0, npos)
+        c["cls"]["posonly"], c["cls"]["poskw"] = po, npos - po
+        if rng.random() < 0.7:
+            c["cls"]["kwargs"] = True
+            if rng.random() < 0.5:
+                o["addition"] = True
+        nargs = rng.randint(0, npos)
+        vals = lambda fd: VALUES[fd.get("type") if fd.get("type") in VALUES else "any"]
+        c["args"] = [copy.deepcopy(rng.choice(vals(fd)["good"] + vals(fd)["good"] + vals(fd)["bad"])) for fd in fields[:nargs]]
+        data = [kv for kv in c["data"]]
+        given = {k for k, _ in data}
+        for i, fd in enumerate(fields[:npos]):
+            # a keyword spelled like a positional parameter: an ordinary **kw entry for a positional-only one, a
+            # duplicate ("multiple values") for one already bound by position
+            if rng.random() < (0.45 if i < nargs else 0.15):
+                k = rng.choice([fd["attname"]] + list(fd.get("alias_from") or []) + [fd["attname"].upper()])
+                if k not in given:
+                    given.add(k)
+                    data.append([k, rng.choice([1, "1", "x"])])
+            elif i < nargs:
+                # bound by position: drop its keywords, or most calls would be duplicates
+                f = derive_field(fd, o.get("case_insensitive"))
+                data = [kv for kv in data if (kv[0].lower() if f["ci"] else kv[0]) not in f["acc"] or rng.random() < 0.15]
+        c["data"] = data
     return c
 
 
